@@ -448,7 +448,75 @@ func stormCase(seed uint64, idx int) (string, map[string]interface{}, string, bo
 	return coq, map[string]interface{}{"case": idx, "mode": "close-storm", "goroutines": nth, "buffered": pre}, "storm", true
 }
 
+// lateCase: events are buffered one after the other, then Close runs against a handful of late pushes (sequence numbers
+// below everything buffered, records that complete nothing).  Whatever the interleaving, what was pushed before Close
+// was invoked must come out exactly once; a flush that lets the list go between two of its steps can lose all of it.
+func lateCase(seed uint64, idx int) (string, map[string]interface{}, string, bool) {
+	r := sx.Fork(seed^0x1a7e, uint64(idx))
+	w := &sworld{}
+	ra, _ := libaudit.NewReassembler(50, time.Hour, w)
+	pre := 2 + r.Intn(6)
+	mid := 0
+	for i := 0; i < pre; i++ {
+		c := call{kind: "push", mid: mid, seq: uint32(100 + i), typ: 1300}
+		mid++
+		m := &auparse.AuditMessage{RecordType: 1300, Sequence: c.seq}
+		w.ids.Store(m, c)
+		w.add(fmt.Sprintf("oStart 0 (%s)", c.coq()))
+		ra.PushMessage(m)
+		w.add(fmt.Sprintf("oRet 0 (%s) true", c.coq()))
+	}
+	late := 2 + r.Intn(4)
+	calls := make([]call, late)
+	for g := range calls {
+		calls[g] = call{kind: "push", mid: mid, seq: uint32(10 + g), typ: 1300}
+		mid++
+	}
+	var ready, goFlag int32
+	var wg sync.WaitGroup
+	run := func(t int, f func()) {
+		wg.Add(1)
+		go func() {
+			defer wg.Done()
+			defer func() {
+				if p := recover(); p != nil {
+					w.add(fmt.Sprintf("oPanic %d", t))
+				}
+			}()
+			atomic.AddInt32(&ready, 1)
+			for atomic.LoadInt32(&goFlag) == 0 {
+			}
+			f()
+		}()
+	}
+	closeOK := false
+	run(1, func() {
+		w.add("oStart 1 (CClose)")
+		closeOK = ra.Close() == nil
+	})
+	for g := range calls {
+		g := g
+		run(2+g, func() {
+			c := calls[g]
+			m := &auparse.AuditMessage{RecordType: 1300, Sequence: c.seq}
+			w.ids.Store(m, c)
+			w.add(fmt.Sprintf("oStart %d (%s)", 2+g, c.coq()))
+			ra.PushMessage(m)
+			w.add(fmt.Sprintf("oRet %d (%s) true", 2+g, c.coq()))
+		})
+	}
+	for atomic.LoadInt32(&ready) < int32(late+1) {
+		runtime.Gosched()
+	}
+	atomic.StoreInt32(&goFlag, 1)
+	wg.Wait()
+	w.add(fmt.Sprintf("oRet 1 (CClose) %v", closeOK))
+	coq := fmt.Sprintf("CStress true [%s]", strings.Join(w.log, "; "))
+	return coq, map[string]interface{}{"case": idx, "mode": "close-against-late-pushes", "buffered": pre, "late_pushes": late}, "late-push-vs-close", true
+}
+
 func main() {
+	late := flag.Int("late", 0, "number of close-against-late-pushes cases")
 	stress := flag.Int("stress", 0, "number of really concurrent (unscheduled) cases")
 	storm := flag.Int("storm", 0, "number of close-storm cases")
 	seed := flag.Uint64("seed", 1, "seed")
@@ -467,6 +535,10 @@ func main() {
 	}
 	for i := 0; i < *stress; i++ {
 		c, d, cl, nt := stressCase(*seed, i)
+		out.Case(c, d, cl, nt)
+	}
+	for i := 0; i < *late; i++ {
+		c, d, cl, nt := lateCase(*seed, i)
 		out.Case(c, d, cl, nt)
 	}
 	for i := 0; i < *storm; i++ {
